@@ -106,3 +106,11 @@ Definition last_why (m0 : model) (tis : list tinsts) (n : nat) : Z :=
           else 0
       end
   end.
+
+(* instructions the performer acts on (it skips everything else, i.e.
+   NO_QUANTIZE); a list with its skipped instructions dropped runs identically
+   (Proofs/LastOkSound.v: transform_graph_strip) *)
+Definition actsb (i : inst) : bool :=
+  is_insertion (i_trans i) || qtrans_eqb (i_trans i) Tr_EMULATED_SUBCHANNEL.
+Definition strip (ti : tinsts) : tinsts :=
+  {| ti_name := ti_name ti; ti_sg := ti_sg ti; ti_insts := filter actsb (ti_insts ti) |}.
